@@ -230,8 +230,8 @@ where
                     check_symbol_at_eof(self, scratch)?;
                     return result(self, scratch);
                 }
-                Some(b' ') | Some(b'\n') | Some(b'\t') | Some(b'\r') | Some(b')') | Some(b']')
-                | Some(b'(') | Some(b'[') | Some(b';') | Some(b'"') | Some(b'|') => {
+                Some(b' ') | Some(b'\n') | Some(b'\t') | Some(b'\r') | Some(0x0C) | Some(b')')
+                | Some(b']') | Some(b'(') | Some(b'[') | Some(b';') | Some(b'"') | Some(b'|') => {
                     if scratch == b"." {
                         return error(self, ErrorCode::InvalidSymbol);
                     }
@@ -388,8 +388,9 @@ impl<'a> SliceRead<'a> {
         loop {
             let next = self.peek_byte();
             match next {
-                None | Some(b' ') | Some(b'\n') | Some(b'\t') | Some(b'\r') | Some(b')')
-                | Some(b']') | Some(b'(') | Some(b'[') | Some(b';') | Some(b'"') | Some(b'|') => {
+                None | Some(b' ') | Some(b'\n') | Some(b'\t') | Some(b'\r') | Some(0x0C)
+                | Some(b')') | Some(b']') | Some(b'(') | Some(b'[') | Some(b';') | Some(b'"')
+                | Some(b'|') => {
                     if scratch.is_empty() {
                         // Fast path: return a slice of the raw S-expression without any
                         // copying.
